@@ -2472,3 +2472,17 @@ variant('b-mixed-fragment-reserves-the-metadata-length', ['C03'], 'rsocket/frame
         "        data_fragment = data_reader.read(expected_data_fragment_length)\n",
         "        if len(last_metadata_fragment) > 0:\n            expected_data_fragment_length -= 3\n        data_fragment = data_reader.read(expected_data_fragment_length)\n",
         ('C03.k', 'FrameFragmenter.__iter__'))
+
+# round 12: collector cancel after the end; credit deferred; shares
+variant('b-collector-cancels-when-its-waiter-is-cancelled', ['C08', 'C01'], 'rsocket/awaitable/collector_subscriber.py',
+        "        await self.is_done.wait()\n",
+        "        try:\n            await self.is_done.wait()\n        except asyncio.CancelledError:\n            if self.subscription is not None:\n                self.subscription.cancel()\n            raise\n",
+        ('C01.h', 'CollectorSubscriber.run'))
+variant('t-collector-cancels-an-unfinished-stream-when-cancelled', ['C08'], 'rsocket/awaitable/collector_subscriber.py',
+        "        await self.is_done.wait()\n",
+        "        try:\n            await self.is_done.wait()\n        except asyncio.CancelledError:\n            if not self.is_done.is_set():\n                self.subscription.cancel()\n            raise\n",
+        kind='twin')
+variant('b-initial-credit-handed-over-a-loop-turn-later', ['C09', 'C06'], 'rsocket/handlers/request_stream_responder.py',
+        "            self.subscriber.subscription.request(frame.initial_request_n)",
+        "            asyncio.get_event_loop().call_soon(self.subscriber.subscription.request, frame.initial_request_n)",
+        ('C06.a', 'RequestStreamResponder.frame_received/RequestStreamFrame'))
